@@ -1,6 +1,7 @@
 """C10 - object checkout converges, is idempotent, honours link types, spares the cache."""
 
 from props import _objcheckout_common as C
+from props import _objcheckout_single as S
 
 PROPERTY = "C10"
 GEN = ["types", "odiff", "relink"]
@@ -18,7 +19,7 @@ RULE = (
     "cache immutability and the link record.  Non-trivial: the first call changed the workspace or raised."
 )
 ASSUMPTIONS = [
-    "the target is a non-empty directory object; workspace paths agree in kind with the target (the property's quantifier)",
+    "the model and the theorems cover non-empty directory targets whose paths agree in kind with the workspace; single-file targets are judged by the oracle only (harness/props/_objcheckout_single.py)",
     "cache objects are intact (C07), hashes not stale (C13); link types limited to those this file system offers (no reflink)",
     "a hard link of an empty object is a fresh empty file (documented behaviour of dvc_objects)",
     "with a fallback list of link types the code accepts any listed type a file already has; exactness is judged for single types",
@@ -29,6 +30,11 @@ ASSUMPTIONS = [
 # relinked under type hardlink; and the plain 3x3 diagonal
 _NEST = {"a": "A", "sub/c": "B", "sub/deep/d": "A"}
 CORPUS = [
+    # relink to independent copies: duplicates hard-linked to each other (not to the cache), base class
+    *[{"stream": "converge", "cls": cls, "types": [ty], "state": False, "relink": True, "second": "plain", "force": True,
+       "prompt": "none", "prior": {"a": ["A", "wshard"], "sub/c": ["A", "wshard"], "e": ["B", "copy"]},
+       "target": {"a": "A", "sub/c": "A", "e": "B"}, "cache": ["A", "B"]}
+      for cls, ty in (("base", "copy"), ("local", "copy"), ("base", "hardlink"))],
     # missing -> fetched -> forced checkout -> the next checkout is a no-op (same / re-created odb object)
     *[{"stream": "rehistory", "cls": cls, "types": [ty], "state": st, "relink": False, "second": "plain", "force": True,
        "prompt": "none", "prior": None, "target": dict(_NEST), "cache": ["A", "B"],
@@ -81,7 +87,10 @@ def run(ctx):
     ctx.obligation("oracle:converges-idempotent-linktypes-cache", not any(v.kind == "oracle" for v in ctx.violations),
                    f"{len(items)} real checkouts judged (walk = target, second call None, link kinds, cache bytes, link record)")
     ctx.correspond("checkout", C.IMPORTS, "co_in", "fun i => enc_result (run_in i)", items, shard=60)
+    S.run_singles(ctx, ctx.n(30, 300))
 
 
 def replay_case(ctx, case):
+    if case.get("single"):
+        return S.replay(ctx, case)
     return C.replay(ctx, case, "C10")
